@@ -1,6 +1,6 @@
 (** Comparison of the model's outcome with the real outcome on the part of the
     output a property reads ("projection (a)" of DESIGN.md §2). *)
-From W2W Require Export Wf.
+From W2W Require Export Wf Render.
 
 Definition agree_res (agree : out -> out -> bool) (a b : result out) : bool :=
   match a, b with
@@ -96,3 +96,21 @@ Definition agree_but_source (a b : out) : bool :=
 (** C07 reads the vertex struct impls and the vertex entry helpers *)
 Definition agree_C07 (a b : out) : bool :=
   list_eqb vstruct_eqb (o_vstructs a) (o_vstructs b) && list_eqb ventry_eqb (o_ventries a) (o_ventries b).
+
+(** whole-text correspondence: the canonical token stream of the text the real crate returned equals the
+    rendering of the model's output ([Render.v]); [None] = the returned text did not tokenise *)
+Definition tokens_agree (r : result out) (toks : option (list tok)) : bool :=
+  match r, toks with
+  | Ok o, Some ts => list_eqb tok_eqb (render_canon o) (canon ts)
+  | Ok _, None => false
+  | _, _ => true
+  end.
+Definition tokens_diff (r : result out) (toks : option (list tok)) : option (N * option tok * option tok) :=
+  match r, toks with
+  | Ok o, Some ts => first_diff (render_canon o) (canon ts) 0
+  | _, _ => None
+  end.
+
+(** the model behind a call with validation requested: validation only gates ([Pipeline.gate]) *)
+Definition genv (requested valid : bool) (m : module) (src : string) (inc : option string) (o : options) : result out :=
+  if requested && negb valid then Err ValidationError else gen m src inc o.
